@@ -171,13 +171,22 @@ Proof.
   destruct (resolve_rec _ _ _ _ _ _) as [st' [r|]]; cbn [fst] in *; auto.
 Qed.
 
+Lemma step_overlap_fst : forall f cf st k vA tA eA sA vB tB eB sB,
+  fst (step f cf st (OOverlap k vA tA eA sA vB tB eB sB)) =
+  fst (publish f cf (fst (publish f cf st k vA tA eA sA)) k vB tB eB sB).
+Proof.
+  intros. cbn [step]. destruct (publish f cf st k vA tA eA sA) as [st1 e1]. cbn [fst].
+  destruct (publish f cf st1 k vB tB eB sB) as [st2 e2]. reflexivity.
+Qed.
+
 (** one step, then any history *)
 Lemma step_mono : forall f cf st o k,
   f_seq_wrap f = false ->
   seq_le (alookup k (s_rt st)) (alookup k (s_rt (fst (step f cf st o)))) /\
   (o <> ORestart -> seq_le (alookup k (s_ds st)) (alookup k (s_ds (fst (step f cf st o))))).
 Proof.
-  intros f cf st o k Hw. destruct o as [k0 v ttl eol so|p d|d|]; cbn [step].
+  intros f cf st o k Hw. destruct o as [k0 v ttl eol so|p d|d| |k0 vA tA eA sA vB tB eB sB];
+    [cbn [step] | cbn [step] | cbn [step] | cbn [step] | rewrite step_overlap_fst].
   - pose proof (publish_mono f cf st k0 v ttl eol so k Hw) as H. cbv zeta in H.
     destruct (publish f cf st k0 v ttl eol so) as [st' e]; cbn [fst] in *. tauto.
   - pose proof (resolve_stores f cf st p d) as H.
@@ -185,6 +194,9 @@ Proof.
     destruct H as (-> & -> & _). split; intros; apply seq_le_refl.
   - cbn [fst s_rt s_ds]. split; intros; apply seq_le_refl.
   - cbn [fst s_rt s_ds]. split; [apply seq_le_refl | congruence].
+  - pose proof (publish_mono f cf st k0 vA tA eA sA k Hw) as H1. cbv zeta in H1.
+    pose proof (publish_mono f cf (fst (publish f cf st k0 vA tA eA sA)) k0 vB tB eB sB k Hw) as H2. cbv zeta in H2.
+    split; [|intros _]; eapply seq_le_trans; [apply H1|apply H2|apply H1|apply H2].
 Qed.
 
 Lemma run_cons : forall f cf st o ops,
@@ -263,7 +275,8 @@ Qed.
 Lemma step_ds_agrees : forall f cf st o,
   f_seq_wrap f = false -> ds_agrees st -> ds_agrees (fst (step f cf st o)).
 Proof.
-  intros f cf st o Hw Hinv. destruct o as [k0 v ttl eol so|p d|d|]; cbn [step].
+  intros f cf st o Hw Hinv. destruct o as [k0 v ttl eol so|p d|d| |k0 vA tA eA sA vB tB eB sB];
+    [cbn [step] | cbn [step] | cbn [step] | cbn [step] | rewrite step_overlap_fst].
   - pose proof (publish_ds_agrees f cf st k0 v ttl eol so Hw Hinv) as H.
     destruct (publish f cf st k0 v ttl eol so) as [st' e]; cbn [fst] in *. exact H.
   - pose proof (resolve_stores f cf st p d) as H.
@@ -271,6 +284,7 @@ Proof.
     destruct H as (Hr & Hs & _). intros k x Hx. rewrite Hr. rewrite Hs in Hx. now apply Hinv.
   - cbn [fst]. exact Hinv.
   - cbn [fst]. intros k x Hx. cbn in Hx. discriminate.
+  - now apply publish_ds_agrees, publish_ds_agrees.
 Qed.
 
 Lemma run_ds_agrees : forall f cf ops st,
@@ -620,13 +634,15 @@ Qed.
 
 Lemma step_cache_ok : forall cf st o, cache_ok cf st -> cache_ok cf (fst (step ideal cf st o)).
 Proof.
-  intros cf st o Hok. destruct o as [k0 v ttl eol so|p d|d|]; cbn [step].
+  intros cf st o Hok. destruct o as [k0 v ttl eol so|p d|d| |k0 vA tA eA sA vB tB eB sB];
+    [cbn [step] | cbn [step] | cbn [step] | cbn [step] | rewrite step_overlap_fst].
   - pose proof (publish_cache_ok cf st k0 v ttl eol so Hok) as H.
     destruct (publish ideal cf st k0 v ttl eol so) as [st' e]; exact H.
   - unfold resolve. destruct (resolve_rec_transparent (fuel_of d) cf st p d Hok) as [H _].
     destruct (resolve_rec _ _ _ _ _ _) as [st' [r|]]; exact H.
   - exact Hok.
   - intros _ key e H. discriminate H.
+  - now apply publish_cache_ok, publish_cache_ok.
 Qed.
 
 Lemma run_cache_ok : forall cf ops st, cache_ok cf st -> cache_ok cf (fst (run ideal cf st ops)).
@@ -699,6 +715,43 @@ Proof.
   assert (Hj : mutable (join v p) = false).
   { unfold join. destruct (p_segs p), (p_slash p); cbn [mutable p_root]; exact Hv. }
   rewrite Hj. cbn. auto.
+Qed.
+
+(** Two publishes of one key, one after the other (which is what the publisher's mutex
+    makes of two overlapping Publish calls), with different values and no explicit
+    sequence: the second record's sequence is the first's plus one. *)
+Lemma run_snoc_publish : forall f cf ops st k v ttl eol so,
+  fst (run f cf st (ops ++ [OPublish k v ttl eol so])) = fst (publish f cf (fst (run f cf st ops)) k v ttl eol so).
+Proof.
+  intros f cf ops. induction ops as [|o ops IH]; intros st k v ttl eol so.
+  - cbn [app]. rewrite run_cons. cbn [run fst step]. destruct (publish f cf st k v ttl eol so); reflexivity.
+  - cbn [app]. rewrite !run_cons. cbn [fst]. apply IH.
+Qed.
+
+Theorem consecutive_publishes : forall f cf ops k vA tA eA vB tB eB,
+  f_seq_wrap f = false ->
+  let st := fst (run f cf st0 ops) in
+  let st1 := fst (publish f cf st k vA tA eA None) in
+  let st2 := fst (publish f cf st1 k vB tB eB None) in
+  snd (publish f cf st k vA tA eA None) = PNone ->
+  snd (publish f cf st1 k vB tB eB None) = PNone ->
+  vA <> vB ->
+  exists rA rB, alookup k (s_rt st1) = Some rA /\ r_val rA = vA /\
+                alookup k (s_rt st2) = Some rB /\ r_val rB = vB /\ r_seq rB = r_seq rA + 1.
+Proof.
+  intros f cf ops k vA tA eA vB tB eB Hw st st1 st2 HA HB Hne.
+  assert (HrA : exists rA, alookup k (s_rt st1) = Some rA /\ r_val rA = vA).
+  { pose proof (publish_cases f cf st k vA tA eA None) as H. cbv zeta in H. fold st1 in H.
+    destruct (choose_seq f (get_published st k) vA None) as [s|].
+    - destruct H as [_ H]. destruct (rt_accepts _ _).
+      + destruct H as [_ ->]. eexists; split; reflexivity.
+      + destruct H as [H _]. rewrite H in HA. discriminate.
+    - destruct H as (H & _). rewrite H in HA. discriminate. }
+  destruct HrA as (rA & HrA & HvA).
+  assert (Hst1 : st1 = fst (run f cf st0 (ops ++ [OPublish k vA tA eA None]))) by (rewrite run_snoc_publish; reflexivity).
+  pose proof (publish_seq_change f cf (ops ++ [OPublish k vA tA eA None]) k vB tB eB rA Hw) as H.
+  cbv zeta in H. rewrite <- Hst1 in H. destruct (H HrA HB) as (rB & HrB & HvB & Hch & _).
+  exists rA, rB. repeat split; auto. apply Hch. congruence.
 Qed.
 
 (** * Chains (third sentence of the property) *)
